@@ -58,6 +58,9 @@ class TextTable:
         self.rows = []
 
     def tid(self, text):
+        if type(text) is not str:
+            # a str subclass (a setting whose text is an AnsiStr): its plain payload is what is logged
+            text = str.__str__(text) if isinstance(text, str) else str(text)
         t = self.ids.get(text)
         if t is None:
             self.rows.append(cps(text))
